@@ -12,7 +12,7 @@
   Core Lean only: linked into `rtpmodel`.
 -/
 import Rtp.Go.Prim
-namespace Rtp.Spec.Ext
+namespace Rtp.Spec.ExtLayouts
 open Rtp
 
 /-- a bit field: `(width in bits, value)` -/
@@ -78,4 +78,4 @@ def absCaptureTime (ts : Nat) (off : Option Int) : List Field :=
 /-- two's complement reading of a 64-bit field -/
 def signed64 (n : Nat) : Int := if n < 2 ^ 63 then (n : Int) else (n : Int) - 2 ^ 64
 
-end Rtp.Spec.Ext
+end Rtp.Spec.ExtLayouts
